@@ -181,6 +181,11 @@ func (c16) Case(c *core.Ctx) {
 	r := c.R
 	mxj.XMLEscapeChars(true)
 	defer ResetDefaults()
+	if c.R.Intn(8) == 0 {
+		// the other spelling of empty elements (<a></a> instead of <a/>): documented to change nothing else
+		mxj.XmlGoEmptyElemSyntax()
+		c.Count("option:go-empty-element-syntax")
+	}
 	defer verifyKept(c, "c16-retained-output-changed")
 	c.Eval()
 	failedCalls(c, 8)
